@@ -26,21 +26,25 @@ inductive Ev where
   | push | pop
   | add (f : String)               -- formulas added after initialisation (bounds, blocking clauses)
   | unsatCore
+  | export
+  | raise (e : String)
   | ret (v : String)               -- return value kind of the public method
   deriving Repr, BEq, Inhabited
 
 def Ev.print : Ev → String
-  | .new k => "new " ++ k
-  | .initAdd n => "init-add " ++ toString n
-  | .minimize t => "minimize " ++ t
-  | .maximize t => "maximize " ++ t
-  | .check r => "check " ++ r
-  | .model => "model"
-  | .push => "push"
-  | .pop => "pop"
-  | .add f => "add " ++ f
-  | .unsatCore => "unsat_core"
-  | .ret v => "return " ++ v
+  | Ev.new k => "new " ++ k
+  | Ev.initAdd n => "init-add " ++ toString n
+  | Ev.minimize t => "minimize " ++ t
+  | Ev.maximize t => "maximize " ++ t
+  | Ev.check r => "check " ++ r
+  | Ev.model => "model"
+  | Ev.push => "push"
+  | Ev.pop => "pop"
+  | Ev.add f => "add " ++ f
+  | Ev.unsatCore => "unsat_core"
+  | Ev.export => "export"
+  | Ev.raise e => "raise " ++ e
+  | Ev.ret v => "return " ++ v
 
 structure SConfig where
   debug : Bool := false
@@ -69,6 +73,7 @@ structure SolverSt where
   model : Option Env := none        -- `_model`
   goal : Option Goal := none        -- `_objective` (incremental) if any
   trace : List Ev := []
+  seen : List (List Fml × Answer) := []   -- ghost: (assertion stack, answer) of every check()
   deriving Inhabited
 
 /-- which objective `create_objective` installs, given the problem's objectives -/
@@ -98,17 +103,17 @@ def optimizeCalls (cfg : SConfig) (st : State) : List Ev :=
   if !cfg.optimize then [] else
   match st.objectives with
   | [] => []
-  | [o] => [if o.maximize then .maximize o.target.print else .minimize o.target.print]
+  | [o] => [if o.maximize then Ev.maximize o.target.print else Ev.minimize o.target.print]
   | os =>
       if cfg.priority == "weight" then
-        [if (os.getLast?.map (·.maximize)).getD false then .maximize "Indicator_EquivalentIndicator"
-         else .minimize "Indicator_EquivalentIndicator"]
-      else os.map (fun o => if o.maximize then Ev.maximize o.target.print else .minimize o.target.print)
+        [if (os.getLast?.map (·.maximize)).getD false then Ev.maximize "Indicator_EquivalentIndicator"
+         else Ev.minimize "Indicator_EquivalentIndicator"]
+      else os.map (fun o => if o.maximize then Ev.maximize o.target.print else Ev.minimize o.target.print)
 
 def SolverSt.initialize (s : SolverSt) (st : State) : SolverSt :=
   let fs := initFmls s.cfg.toConfig st
   { s with initialized := true, base := fs, frames := [], goal := mkGoal s.cfg st,
-           trace := s.trace ++ [.new (solverKind s.cfg st), .initAdd fs.length] ++ optimizeCalls s.cfg st }
+           trace := s.trace ++ [Ev.new (solverKind s.cfg st), Ev.initAdd fs.length] ++ optimizeCalls s.cfg st }
 
 /-- the assertion stack a `check()` sees -/
 def SolverSt.stack (s : SolverSt) : List Fml := s.base ++ s.frames.reverse
@@ -125,40 +130,56 @@ structure LoopSt where
   trace : List Ev := []
   values : List Int := []          -- objective values found, most recent first
   exit : String := "answers-exhausted"
+  seen : List (List Fml × Answer) := []   -- ghost: the assertion stack each check() saw, with its answer
   deriving Inhabited
 
 def boundFml (g : Goal) (v : Int) : Fml :=
   if g.isMin then .lt (.var g.target) (numT v) else .gt (.var g.target) (numT v)
 
+def iterExceeded (maxIter : Option Nat) (iter : Nat) : Bool :=
+  match maxIter with
+  | some m => decide (iter > m)
+  | none => false
+
+/-- the three last cumulative times and the "expected time of the next round" guard: the parabola
+    through (0,t0),(1,t1),(2,t2) evaluated at 3 is `t0 − 3·t1 + 3·t2` -/
+def nextThree (three : List Int) (total maxTime : Int) : List Int × Bool :=
+  if three.length < 3 then (three ++ [total], false)
+  else
+    let t := three.drop 1 ++ [total]
+    (t, decide (t.getD 0 0 - 3 * t.getD 1 0 + 3 * t.getD 2 0 > maxTime))
+
+/-- state after a `sat ρ` answer, before the stop tests -/
+def LoopSt.found (l : LoopSt) (base : List Fml) (g : Goal) (ρ : Env) (d : Int) : LoopSt :=
+  { l with iter := l.iter + 1, best := some ρ, cur := some (ρ.i g.target), total := l.total + d,
+           values := ρ.i g.target :: l.values,
+           trace := l.trace ++ [Ev.check "sat", Ev.model],
+           seen := l.seen ++ [(base ++ l.frames.reverse, Answer.sat ρ)] }
+
+/-- … and after pushing the new bound -/
+def LoopSt.pushed (l1 : LoopSt) (g : Goal) (v : Int) (three : List Int) : LoopSt :=
+  { l1 with three, frames := boundFml g v :: l1.frames,
+            trace := l1.trace ++ [Ev.push, Ev.add (boundFml g v).print] }
+
 /-- one run of the loop over the scripted answers / durations -/
-def incLoop (g : Goal) (maxIter : Option Nat) (maxTime : Int) : List (Answer × Int) → LoopSt → LoopSt
+def incLoop (base : List Fml) (g : Goal) (maxIter : Option Nat) (maxTime : Int) : List (Answer × Int) → LoopSt → LoopSt
   | [], l => l
   | (a, d) :: rest, l =>
-    let iter := l.iter + 1
-    if (match maxIter with | some m => decide (iter > m) | none => false) then
-      { l with iter, exit := "max-iter" }
+    if iterExceeded maxIter (l.iter + 1) then { l with iter := l.iter + 1, exit := "max-iter" }
     else
       match a with
-      | .unsat => { l with iter, trace := l.trace ++ [.check "unsat"], exit := "unsat" }
-      | .unknown => { l with iter, trace := l.trace ++ [.check "unknown"], exit := "unknown" }
+      | .unsat => { l with iter := l.iter + 1, trace := l.trace ++ [Ev.check "unsat"], exit := "unsat",
+                            seen := l.seen ++ [(base ++ l.frames.reverse, Answer.unsat)] }
+      | .unknown => { l with iter := l.iter + 1, trace := l.trace ++ [Ev.check "unknown"], exit := "unknown",
+                              seen := l.seen ++ [(base ++ l.frames.reverse, Answer.unknown)] }
       | .sat ρ =>
-        let v := ρ.i g.target
-        let total := l.total + d
-        let l1 := { l with iter, best := some ρ, cur := some v, total, values := v :: l.values,
-                           trace := l.trace ++ [.check "sat", .model] }
-        if total > maxTime then { l1 with exit := "max-time" }
-        else if g.bound == some v then { l1 with exit := "bound" }
+        let l1 := l.found base g ρ d
+        if l1.total > maxTime then { l1 with exit := "max-time" }
+        else if g.bound == some (ρ.i g.target) then { l1 with exit := "bound" }
+        else if (nextThree l.three l1.total maxTime).2 then
+          { l1 with three := (nextThree l.three l1.total maxTime).1, exit := "expected-time" }
         else
-          let (three, stop) :=
-            if l.three.length < 3 then (l.three ++ [total], false)
-            else
-              let t := l.three.drop 1 ++ [total]
-              (t, decide (t.getD 0 0 - 3 * t.getD 1 0 + 3 * t.getD 2 0 > maxTime))
-          if stop then { l1 with three, exit := "expected-time" }
-          else
-            let b := boundFml g v
-            incLoop g maxIter maxTime rest
-              { l1 with three, frames := b :: l1.frames, trace := l1.trace ++ [.push, .add b.print] }
+          incLoop base g maxIter maxTime rest (l1.pushed g (ρ.i g.target) (nextThree l.three l1.total maxTime).1)
 
 /-! ### public methods -/
 
@@ -169,11 +190,11 @@ def blockingClause (st : State) (ρ : Env) : Fml :=
     (if t.optional then [Fml.neb (.bvar (.sched t.name)) (if ρ.b (.sched t.name) then .tt else .ff)] else [])))
 
 inductive Op where
-  | initialize
+  | init
   | solve
   | findAnother
   | findAnotherVar (v : IVar)
-  | export
+  | exportSmt
   deriving Inhabited
 
 /-- result of a public call: new state, remaining oracle answers, raised error -/
@@ -189,41 +210,44 @@ def SolverSt.solve (s0 : SolverSt) (st : State) (answers : List (Answer × Int))
   let s := s0.ensureInit st
   match (if !st.objectives.isEmpty && !s.cfg.optimize then s.goal else none) with
   | some g =>
-      let l := incLoop g s.cfg.maxIter s.cfg.maxTime answers {}
-      let used := l.trace.countP (fun e => match e with | .check _ => true | _ => false)
+      let l := incLoop s.base g s.cfg.maxIter s.cfg.maxTime answers {}
+      let used := l.trace.countP (fun e => match e with | Ev.check _ => true | _ => false)
       let pops := List.replicate l.frames.length Ev.pop
-      let s1 := { s with trace := s.trace ++ l.trace ++ pops, frames := [] }
+      let s1 := { s with trace := s.trace ++ l.trace ++ pops, frames := [], seen := s.seen ++ l.seen }
       match l.best with
-      | none => { s := { s1 with trace := s1.trace ++ [.ret "False"] }, rest := answers.drop used }
-      | some ρ => { s := { s1 with model := some ρ, trace := s1.trace ++ [.ret "solution"] }, rest := answers.drop used }
+      | none => { s := { s1 with trace := s1.trace ++ [Ev.ret "False"] }, rest := answers.drop used }
+      | some ρ => { s := { s1 with model := some ρ, trace := s1.trace ++ [Ev.ret "solution"] }, rest := answers.drop used }
   | none =>
       match answers with
-      | [] => { s := { s with trace := s.trace ++ [.ret "False"] }, rest := [] }
+      | [] => { s := { s with trace := s.trace ++ [Ev.ret "False"] }, rest := [] }
       | (a, _) :: rest =>
         match a with
         | .unsat =>
-            { s := { s with trace := s.trace ++ [.check "unsat"] ++ (if s.cfg.debug then [.unsatCore] else []) ++ [.ret "False"] },
+            { s := { s with trace := s.trace ++ [Ev.check "unsat"] ++ (if s.cfg.debug then [Ev.unsatCore] else []) ++ [Ev.ret "False"],
+                            seen := s.seen ++ [(s.base, Answer.unsat)] },
               rest }
-        | .unknown => { s := { s with trace := s.trace ++ [.check "unknown", .ret "False"] }, rest }
-        | .sat ρ => { s := { s with model := some ρ, trace := s.trace ++ [.check "sat", .model, .ret "solution"] }, rest }
+        | .unknown => { s := { s with trace := s.trace ++ [Ev.check "unknown", Ev.ret "False"],
+                                      seen := s.seen ++ [(s.base, Answer.unknown)] }, rest }
+        | .sat ρ => { s := { s with model := some ρ, trace := s.trace ++ [Ev.check "sat", Ev.model, Ev.ret "solution"],
+                                    seen := s.seen ++ [(s.base, Answer.sat ρ)] }, rest }
 
 def SolverSt.step (s : SolverSt) (st : State) (op : Op) (answers : List (Answer × Int)) : OpRes :=
   match op with
-  | .initialize => { s := s.initialize st, rest := answers }
+  | .init => { s := s.initialize st, rest := answers }
   | .solve => s.solve st answers
-  | .export => { s := s.ensureInit st, rest := answers }
+  | .exportSmt => let s1 := s.ensureInit st; { s := { s1 with trace := s1.trace ++ [Ev.export] }, rest := answers }
   | .findAnother =>
       match s.model with
-      | none => { s, rest := answers, err := some .assertion }
+      | none => { s := { s with trace := s.trace ++ [Ev.raise "AssertionError"] }, rest := answers, err := some .assertion }
       | some ρ =>
           let b := blockingClause st ρ
-          ({ s with base := s.base ++ [b], trace := s.trace ++ [.add b.print] }).solve st answers
+          ({ s with base := s.base ++ [b], trace := s.trace ++ [Ev.add b.print] }).solve st answers
   | .findAnotherVar v =>
       match s.model with
-      | none => { s, rest := answers, err := some .assertion }
+      | none => { s := { s with trace := s.trace ++ [Ev.raise "AssertionError"] }, rest := answers, err := some .assertion }
       | some ρ =>
           let b := Fml.ne (.var v) (numT (ρ.i v))
-          ({ s with base := s.base ++ [b], trace := s.trace ++ [.add b.print] }).solve st answers
+          ({ s with base := s.base ++ [b], trace := s.trace ++ [Ev.add b.print] }).solve st answers
 
 /-- run a sequence of public calls -/
 def runOps (s : SolverSt) (st : State) : List Op → List (Answer × Int) → SolverSt
